@@ -120,6 +120,13 @@ pub fn run(o: &Opts) -> Report {
                         desc.push(format!("read({})", n));
                         push(&mut world, &mut lines, &mut impl_out, &mut expect, format!("hread 0 {}", n), Some(enc_io_res(&r)));
                     }
+                    6 if rng.chance(1, 2) => {
+                        // the rest of the file in one call, from wherever the handle stands
+                        let mut rest = vec![];
+                        let r = cur.read_to_end(&mut rest).map(|_| enc_bytes(&rest));
+                        desc.push("read_to_end".into());
+                        push(&mut world, &mut lines, &mut impl_out, &mut expect, "hreadall 0".into(), Some(enc_io_res(&r)));
+                    }
                     6..=8 => {
                         // offsets >= 2^63 only on in-memory handles (the OS rejects them)
                         let (txt, sf) = seek_choice(&mut rng, data.len(), !phys_backed);
